@@ -1422,3 +1422,65 @@ def swallowing_env(mod):
                 if isinstance(t, ast.Name):
                     out[t.id] = Swallow()
     return out
+
+
+# ==================================================================================================================
+# Structural layer helpers: normalised views (sa/props/_lib_c.norm_class) and abstention
+# ==================================================================================================================
+class Abstain(Exception):
+    """a structural rule could not positively recognise the construct it judges"""
+
+
+def structural(ctx, rule: str, covered_by: str, fn, *args):
+    """Run a structural rule group; when it abstains the clause is left to the named bounded / other rule (a note, never a verdict)."""
+    try:
+        fn(*args)
+    except Abstain as a:
+        ctx.note(f"{rule}: shape not recognised ({a}); clause left to {covered_by}")
+
+
+def norm_method(ctx, rel: str, clsname: str, name: str, keep=()):
+    """the method on the normalised view of its class: private single-use helpers inlined at their call sites, pure single-assignment temporaries
+    substituted, guard clauses turned into if/else (sa/props/_lib_c.norm_class)"""
+    from sa.props._lib_c import norm_class, _class_functions
+    ctx.func(rel, f"{clsname}.{name}")
+    cls = norm_class(ctx, rel, clsname, keep=set(keep) | {name})
+    fs = [f for _, f in _class_functions(cls) if f.name == name]
+    if not fs:
+        raise Abstain(f"{clsname}.{name} vanished during normalisation")
+    return fs[0]
+
+
+_NORM_FUNCS: Dict[tuple, ast.AST] = {}
+
+
+def norm_function(ctx, rel: str, qual: str):
+    """a module-level (or nested) function with its pure single-assignment temporaries substituted"""
+    from sa.props._lib_c import clone, _subst_temps, set_parents
+    f0 = ctx.func(rel, qual)
+    key = (id(f0), rel, qual)
+    if key not in _NORM_FUNCS:
+        f = clone(f0)
+        set_parents(f)
+        for _ in range(20):
+            if not _subst_temps(f):
+                break
+        ast.fix_missing_locations(f)
+        _NORM_FUNCS[key] = f
+    return _NORM_FUNCS[key]
+
+
+def param_uses(func, name: str) -> List[ast.AST]:
+    """the smallest enclosing expressions (calls / compares / f-strings) in which parameter ``name`` is read"""
+    out = []
+    parents = {}
+    for p_ in ast.walk(func):
+        for c_ in ast.iter_child_nodes(p_):
+            parents[id(c_)] = p_
+    for n in ast.walk(func):
+        if isinstance(n, ast.Name) and n.id == name and isinstance(n.ctx, ast.Load):
+            cur = n
+            while id(cur) in parents and not isinstance(parents[id(cur)], (ast.Call, ast.Compare, ast.JoinedStr, ast.stmt)):
+                cur = parents[id(cur)]
+            out.append(parents.get(id(cur), cur) if isinstance(parents.get(id(cur)), (ast.Call, ast.Compare, ast.JoinedStr)) else cur)
+    return out
